@@ -6,6 +6,7 @@ import CsVerif.Model.C08
          → `ok cfg|guard <xorkey> <xorencoded T|F> <len>.<ck of block> <#settings> <compile> <export> <arch>` | `exc <E>`
   xor    <B|O> <B> <data>      XorEncodedFile.from_file          → `ok <nonce_offset>` | `exc <E>`
   mz arch stamps mmz mpe ppa   <B|O> <data>   pe.find_*(fh)      → `ok <value tokens>` | `exc <E>`
+  ppaL   <L> <B|O> <data>      pe.find_stage_prepend_append on a file object whose file system accepts offsets ≤ L
   art    <B|O> <data>          list(iter_artifactkit_payloads)   → `ok <n> <ck>` | `exc <E>`
   http   <data>                parse_raw_http                    → `ok request <#params> <#headers> <|body|>` | `ok response <status> …` | `exc <E>`
 
@@ -79,6 +80,11 @@ def step : List String → String
     match kindTok k, natTok b, bytesTok d with
     | some k, some b, some d =>
       if b = 0 then "bad-op" else showPy toString (xorEncodedFromFile b { data := d, pos := 0, kind := k })
+    | _, _, _ => "bad-op"
+  | ["ppaL", l, k, d, _tag] =>
+    match natTok l, kindTok k, bytesTok d with
+    | some l, some k, some d =>
+      showPy (fun r => s!"{showOptBytes r.1} {showOptBytes r.2}") (peFindStagePrependAppendL l { data := d, pos := 0, kind := k })
     | _, _, _ => "bad-op"
   | ["art", k, d, _tag] =>
     match kindTok k, bytesTok d with
